@@ -257,4 +257,24 @@ theorem read_write_main (cfg : Cfg) (inp : List Writer.Sample) (dec : Decisions)
   · simpa [Decoded.catalogue] using e1
   · simpa [Decoded.bases] using e2
 
+/-- The reference writer's output is accepted by the repaired container reader, with every part
+inside the file (C14 link); no hypothesis on the decisions. -/
+theorem writer_output_opens (cfg : Cfg) (inp : List Writer.Sample) (dec : Decisions)
+    (zc : Nat → List Nat → List Nat) (bs : List Nat) (hw : writeArchive cfg inp dec zc = some bs) :
+    ∃ r, openBytesFixed seekMax bs = .ok r ∧ r.file = bs ∧ partsInFile bs.length r.dir = true := by
+  obtain ⟨outs, _, _, hmd, hbs, hlen⟩ := writeArchive_unpack cfg inp dec zc bs hw
+  have hops : ∀ op ∈ archiveOps (regNames dec)
+      (partList cfg zc inp outs (Ragc.Details.storeBatches cfg.segSize cfg.k 50 (catalogue inp dec outs))), OpOK op := by
+    intro op hop
+    unfold archiveOps at hop
+    simp only [List.mem_append, List.mem_map, List.mem_singleton] at hop
+    rcases hop with (⟨n, hn, rfl⟩ | ⟨nb, hnb, rfl⟩) | rfl
+    · exact regNames_nz dec n hn
+    · exact hmd nb hnb
+    · trivial
+  have h := rel_run _ hops
+  have hopen := openBytesFixed_close h seekMax (by decide) (by rw [← hbs]; exact hlen)
+  rw [← hbs] at hopen
+  exact ⟨_, hopen, (openBytesFixed_ok hopen).1, (openBytesFixed_ok hopen).2⟩
+
 end Ragc.WriterLemmas
